@@ -8,6 +8,7 @@ import (
 	"hash/fnv"
 	"os"
 	"path/filepath"
+	"regexp"
 	"strings"
 	"testing"
 	"time"
@@ -205,9 +206,11 @@ func (e *Explorer) account(sc *Scenario, x *Exec, devs int) {
 		if v.Prop == "" {
 			v.Prop = sc.Prop
 		}
-		if e.Known != nil && e.Known.Match(v) {
-			st.Known[v.Prop+" "+v.Sig]++
-			continue
+		if e.Known != nil {
+			if i := e.Known.Match(v, sc.Name); i >= 0 {
+				st.Known[fmt.Sprintf("%s %d", v.Prop, i)]++
+				continue
+			}
 		}
 		key := v.Prop + "|" + v.Sig
 		if st.sigSeen[key] {
@@ -278,7 +281,9 @@ func (e *Explorer) writeReplay(sc *Scenario, x *Exec, v Violation) string {
 type KnownFindings struct {
 	Findings []struct {
 		Property string `json:"property"`
-		Sig      string `json:"signature"` // matched as a prefix of the violation signature
+		Sig      string `json:"signature"`    // matched as a prefix of the violation signature
+		SigRe    string `json:"signature_re"` // or: regular expression on the signature
+		ScnRe    string `json:"scenario_re"`  // and (optional): regular expression on the scenario name
 		What     string `json:"what"`
 	} `json:"findings"`
 	Fixed []string `json:"fixed"`
@@ -296,20 +301,31 @@ func LoadKnown(path string) (*KnownFindings, error) {
 	return k, nil
 }
 
-func (k *KnownFindings) Match(v Violation) bool {
-	for _, f := range k.Findings {
-		if f.Property == v.Prop && strings.HasPrefix(v.Sig, f.Sig) {
-			return true
+func (k *KnownFindings) find(prop, sig, scn string) int {
+	for i, f := range k.Findings {
+		if f.Property != prop {
+			continue
 		}
+		if f.Sig != "" && !strings.HasPrefix(sig, f.Sig) {
+			continue
+		}
+		if f.SigRe != "" {
+			if ok, _ := regexp.MatchString(f.SigRe, sig); !ok {
+				continue
+			}
+		}
+		if f.ScnRe != "" {
+			if ok, _ := regexp.MatchString(f.ScnRe, scn); !ok {
+				continue
+			}
+		}
+		if f.Sig == "" && f.SigRe == "" {
+			continue
+		}
+		return i
 	}
-	return false
+	return -1
 }
 
-func (k *KnownFindings) What(prop, sig string) string {
-	for _, f := range k.Findings {
-		if f.Property == prop && strings.HasPrefix(sig, f.Sig) {
-			return f.What
-		}
-	}
-	return sig
-}
+// Match reports the index of the known finding that lists this violation, or -1.
+func (k *KnownFindings) Match(v Violation, scn string) int { return k.find(v.Prop, v.Sig, scn) }
